@@ -1613,6 +1613,56 @@ fn directed(rec: &mut Recorder) {
                     run_expect(&c, rec, "optmix", Some(es), None, &why);
                 }
             }
+            // ---- bitmap: the type bitmap of each record the proof relies on (closest encloser, QNAME match,
+            //      wildcard match) — RFC 5155 §8.3, RFC 6840 §4.1, §8.5, §8.7
+            {
+                let mut genuine = b.case.clone();
+                for (i, r) in genuine.recs.iter_mut().enumerate() {
+                    r.opt_out = b.kind == PK::DsOptOut && Some(i) == b.decisive;
+                }
+                let qt = genuine.qtype;
+                // (role index in recs, bitmap, expected Secure, why)
+                let mut variants: Vec<(usize, Vec<u16>, bool, String)> = vec![];
+                match b.kind {
+                    PK::NxDomain | PK::WildNoData | PK::DsOptOut => {
+                        // record 0 matches the closest encloser
+                        for (ts, ok) in [(vec![T_NS], false), (vec![T_NS, T_DS], false), (vec![T_DNAME], false), (vec![T_NS, T_SOA], true), (vec![T_A, T_DNAME], false), (vec![], true)] {
+                            let ok = ok || b.kind == PK::DsOptOut; // the Opt-Out DS check does not use the closest encloser record
+                            variants.push((0, ts.clone(), ok, format!("closest encloser record with bitmap {ts:?} (RFC 5155 §8.3: NS without SOA, or DNAME, must not be used)")));
+                        }
+                    }
+                    _ => {}
+                }
+                if b.kind == PK::Match {
+                    for (ts, ok) in [(vec![qt], false), (vec![T_CNAME], false), (vec![T_A, qt], false), (vec![T_NS], false), (vec![T_NS, T_SOA], true), (vec![], true), (vec![T_A], true)] {
+                        variants.push((0, ts.clone(), ok, format!("record matching QNAME with bitmap {ts:?}, QTYPE {qt} (§8.5: neither QTYPE nor CNAME; RFC 6840 §4.1: not an ancestor delegation unless QTYPE = DS)")));
+                    }
+                }
+                if b.kind == PK::WildNoData {
+                    let w = genuine.recs.len() - 1; // the record matching the wildcard is the last one built
+                    for (ts, ok) in [(vec![qt], false), (vec![T_CNAME], false), (vec![T_A, qt], false), (vec![T_A], true), (vec![], true)] {
+                        variants.push((w, ts.clone(), ok, format!("record matching the wildcard at the closest encloser with bitmap {ts:?}, QTYPE {qt} (§8.7)")));
+                    }
+                }
+                for (i, ts, ok, why) in variants {
+                    if i >= genuine.recs.len() {
+                        continue;
+                    }
+                    let mut c = genuine.clone();
+                    c.recs[i].types = ts;
+                    run_expect(&c, rec, "bitmap", Some(ok), None, &why);
+                    // the same record for a DS query: an ancestor-delegation record matching QNAME does prove "no DS"
+                    if b.kind == PK::Match && c.recs[i].types == vec![T_NS] {
+                        let mut d = c.clone();
+                        d.qtype = T_DS;
+                        run_expect(&d, rec, "bitmap", Some(true), None, "record matching QNAME with bitmap [NS], QTYPE DS: the parent side is authoritative for DS");
+                    }
+                }
+                // an owner name without any label (the root): "record name format is invalid"
+                let mut c = genuine.clone();
+                c.recs[0].owner = Name::root();
+                run_expect(&c, rec, "ownerbase", None, Some("bogus"), "an NSEC3 record owned by the root name has no hash label");
+            }
             // ---- ownerbase: flags cleared except the decisive one of the Opt-Out DS proof
             let mut genuine = b.case.clone();
             for (i, r) in genuine.recs.iter_mut().enumerate() {
@@ -1759,11 +1809,14 @@ mod e2e {
         catalog: Arc<Catalog>,
         child: Option<(Name, Arc<Catalog>)>,
         mutate: Option<Mutator>,
+        /// deliver negative responses the way a resolver-like upstream does: as
+        /// `Err(NetError::Dns(DnsError::NoRecordsFound(..)))` carrying the authority section
+        negative_as_error: bool,
     }
 
     impl CatalogHandle {
         fn plain(catalog: Arc<Catalog>) -> Self {
-            Self { catalog, child: None, mutate: None }
+            Self { catalog, child: None, mutate: None, negative_as_error: false }
         }
     }
 
@@ -1790,10 +1843,18 @@ mod e2e {
                     _ => me.catalog.clone(),
                 };
                 let resp = ask_catalog(&catalog, &request).await?;
-                Ok(match (&me.mutate, &query) {
+                let resp = match (&me.mutate, &query) {
                     (Some(m), Some(q)) => m(q, resp),
                     _ => resp,
-                })
+                };
+                if me.negative_as_error && resp.answers.is_empty() {
+                    if let Some(q) = query {
+                        let mut nr = hickory_net::NoRecords::new(q, resp.metadata.response_code);
+                        nr.authorities = Some(resp.authorities.iter().cloned().collect());
+                        return Err(NetError::Dns(hickory_net::DnsError::NoRecordsFound(nr)));
+                    }
+                }
+                Ok(resp)
             }))
         }
     }
@@ -1845,6 +1906,15 @@ mod e2e {
         let mut anchors = TrustAnchors::empty();
         anchors.insert(&public);
         Some(Srv { catalog: Arc::new(catalog), anchors: Arc::new(anchors) })
+    }
+
+    /// verdict class of the validator when the same upstream delivers negative responses as
+    /// `NoRecordsFound` errors (the path `verify_response` translates back into a message)
+    fn ask_as_error(rt: &tokio::runtime::Runtime, srv: &Srv, q: &Name, t: u16) -> String {
+        let mut inner = CatalogHandle::plain(srv.catalog.clone());
+        inner.negative_as_error = true;
+        let handle = DnssecDnsHandle::with_trust_anchor(inner, srv.anchors.clone());
+        classify(&send_through(rt, &handle, q, t, None))
     }
 
     /// (raw response with DO set, verdict of the validator: Ok / error text)
@@ -1908,6 +1978,9 @@ mod e2e {
                 z.names.insert(rel_name(&apex, &[b"b"]), [T_CNAME].into_iter().collect());
                 z.names.insert(rel_name(&apex, &[b"a"]), [T_NS].into_iter().collect());
                 z.names.insert(rel_name(&apex, &[b"a", b"b"]), [T_NS, T_DS].into_iter().collect());
+                // glue below the two cuts: must not get NSEC3 records, queries for it are referrals
+                z.names.insert(rel_name(&apex, &[b"b", b"a"]), [T_A].into_iter().collect());
+                z.names.insert(rel_name(&apex, &[b"b", b"a", b"b"]), [T_A].into_iter().collect());
             }
             let Some(srv) = build(&z) else {
                 rec.stat("e2e.zone-build-failed");
@@ -2058,6 +2131,15 @@ mod e2e {
             return;
         }
         rec.stat(&format!("e2e.validator.negative-or-wildcard.{vtag}"));
+        // the same negative response delivered as a NoRecordsFound error must get the same treatment
+        if n_answers == 0 {
+            let as_err = ask_as_error(rt, srv, q, t);
+            let same = as_err.starts_with("ok") == validated.is_ok();
+            rec.stat(&format!("e2e.validator.negative-as-error.{}", if same { "same-verdict" } else { "different-verdict" }));
+            if !same {
+                fail_srv(rec, z, q, t, format!("the server's negative response for {q} type {t} is {} when delivered as a message but {as_err} when the upstream delivers it as Err(NoRecordsFound) with the same authority section", vtag), "");
+            }
+        }
         if direct != Proof::Secure {
             fail_srv(
                 rec,
